@@ -49,6 +49,7 @@ Step ==
               \* no read may still be waiting although a line, the end of the stream or an error is there
               /\ (pend > 0 /\ ~poisoned) => ~(HasNL(rbuf) \/ eof \/ ioerr \/ Len(rbuf) > Limit)
               /\ UNCHANGED <<conn, rbuf, eof, ioerr, poisoned, pend>>
+         [] OTHER -> FALSE                                   \* an event the reference has no rule for (e.g. a hook that failed)
     /\ l' = l + 1 /\ rid' = rid
 
 Init == /\ rid \in 1..Len(Runs) /\ l = 1 /\ conn = "new" /\ rbuf = <<>> /\ eof = FALSE /\ ioerr = FALSE
